@@ -35,12 +35,8 @@ func (f *Foto) GetLunar() *Lunar {
 }
 
 func (f *Foto) GetYear() int {
-	sy := f.lunar.GetSolar().GetYear()
-	y := sy - DEAD_YEAR
-	if sy == f.lunar.GetYear() {
-		y++
-	}
-	return y
+	// 佛历年随阴历年（与NewFoto的换算一致），阴历年超前于阳历年的日子也适用
+	return f.lunar.GetYear() - DEAD_YEAR + 1
 }
 
 func (f *Foto) GetMonth() int {
